@@ -237,6 +237,57 @@ static void limit_case(uint64_t idx, void *vctx)
     if (!vf_in_confirm) vf_outcome(h);
 }
 
+/* ---------------- fill entry points with boxes and clips that exceed the image ----------------
+ * pixman_image_fill_boxes / fill_rectangles may fill memory directly; the boxes and the destination's clip region are caller data and
+ * may both reach beyond the image.  One- and two-row destinations between PROT_NONE pages. */
+static void fill_bounds_case(uint64_t idx, void *vctx)
+{
+    (void)vctx;
+    static const pixman_format_code_t fm[4] = { PIXMAN_a8r8g8b8, PIXMAN_r5g6b5, PIXMAN_a8, PIXMAN_a1 };
+    static const pixman_op_t ops[4] = { PIXMAN_OP_SRC, PIXMAN_OP_CLEAR, PIXMAN_OP_OVER, PIXMAN_OP_ADD };
+    int dims[7] = { 2, 2, 4, 5, 5, 4, 2 }, d[7];
+    vf_decode(idx, dims, 7, d);
+    int place = d[0], sz = d[1], fi = d[2], ck = d[3], bk = d[4], oi = d[5], api = d[6];
+    int w = sz ? 5 : 8, h = sz ? 2 : 1;
+    gimg_t dd = make_guarded(fm[fi], w, h, 0, place, idx + 37);
+    pixman_region32_t clip; int have_clip = 1;
+    switch (ck) {
+    case 0: have_clip = 0; pixman_region32_init(&clip); break;
+    case 1: pixman_region32_init_rect(&clip, 1, 0, (unsigned)(w - 2), (unsigned)h); break;
+    case 2: pixman_region32_init_rect(&clip, -16, -16, (unsigned)(w + 40), (unsigned)(h + 36)); break;                    /* larger than the image on every side */
+    case 3: pixman_region32_init_rect(&clip, -5, 0, (unsigned)(w + 2), (unsigned)(h + 3)); break;                          /* sticks out left and below */
+    default: { pixman_box32_t b[3] = { { -4, -2, w + 6, 0 }, { -4, 0, 2, h }, { w - 1, 0, w + 9, h + 7 } }; pixman_region32_init_rects(&clip, b, 3); break; }
+    }
+    if (have_clip) pixman_image_set_clip_region32(dd.img, &clip);
+    pixman_region32_fini(&clip);
+    pixman_box32_t box;
+    switch (bk) {
+    case 0: box = (pixman_box32_t){ 1, 0, w - 1, h }; break;
+    case 1: box = (pixman_box32_t){ 2, 0, w + 30, h }; break;
+    case 2: box = (pixman_box32_t){ -5, -3, w + 6, h + 4 }; break;
+    case 3: box = (pixman_box32_t){ w + 3, h + 2, w + 20, h + 9 }; break;
+    default: box = (pixman_box32_t){ -30000, -30000, 30000, 30000 }; break;
+    }
+    static const int LC[3] = { PH_CFG_DEFAULT, PH_CFG_GENERAL, PH_CFG_SSSE3 | PH_CFG_SSE2 };
+    uint64_t n = 0;
+    for (int ci = 0; ci < 3; ci++) for (int col = 0; col < 2; col++) {
+        ph_set_cfg(LC[ci]);
+        pixman_color_t c = { 0x8000, 0x4000, 0x2000, col ? 0xffff : 0x9000 };
+        if (api) {
+            /* fill_rectangles: 16-bit rectangles */
+            int64_t rw = (int64_t)box.x2 - box.x1, rh = (int64_t)box.y2 - box.y1;
+            pixman_rectangle16_t r = { (int16_t)(box.x1 < -32768 ? -32768 : box.x1), (int16_t)(box.y1 < -32768 ? -32768 : box.y1), (uint16_t)(rw > 65535 ? 65535 : rw), (uint16_t)(rh > 65535 ? 65535 : rh) };
+            pixman_image_fill_rectangles(ops[oi], dd.img, &c, 1, &r);
+        } else pixman_image_fill_boxes(ops[oi], dd.img, &c, 1, &box);
+        n++;
+    }
+    vf_count_libcalls(n);
+    uint64_t hh = vf_hash64(dd.g.lo, dd.g.size, 9);
+    free_guarded(&dd);
+    vf_count_eval(1); vf_count_nontrivial(1);
+    if (!vf_in_confirm) vf_outcome(hh);
+}
+
 /* ---------------- rows that fill their storage words exactly ----------------
  * Narrow and sub-byte images whose row is a whole number of 32-bit words with no padding, used at full width as source or as mask of a
  * solid colour: loops that cache a word of bits (a1, a4) or pixels must not load the word after the last one.  End- and start-aligned
@@ -564,16 +615,17 @@ int main(int argc, char **argv)
     vf_space_run("composite-transformed-sources", nfull, c4_case, &c);
     vf_space_run("trapezoid-entry-points", th ? (uint64_t)NTY * NTY * NTX * NTX * NTX * 3 * 5 : (uint64_t)9 * 9 * 7 * 7 * 7 * 3 * 2, trap_case, th ? &c : NULL);
     vf_space_run("coordinate-range-edges", (uint64_t)4 * 3 * 15 * 8 * 7 * 3 * 2, limit_case, NULL);
+    vf_space_run("fills-with-boxes-and-clips-beyond-the-image", (uint64_t)2 * 2 * 4 * 5 * 5 * 4 * 2, fill_bounds_case, NULL);
     vf_space_run("rows-that-fill-their-words-exactly", (uint64_t)2 * 4 * 6 * 3 * 2 * 3 * 5, full_row_case, NULL);
     vf_space_run("rotations-covering-the-source-tightly", (uint64_t)2 * 6 * 6 * 6 * 4 * 4 * 2, tight_rot_case, NULL);
     vf_space_run("alpha-maps-of-other-sizes", (uint64_t)2 * 4 * 4 * 3 * 4 * 4 * 6 * 6, amap_case, NULL);
     vf_space_run("same-shape-copies-between-views", (uint64_t)6 * 4 * 3 * NCFG_LIST * 2, copy_case, NULL);
     vf_space_run("glyph-positions", (uint64_t)14 * 14 * 3 * 2 * 3, glyph_case, NULL);
     vf_space_run("create-bits-sizes", 9 * 9 * 6, create_case, NULL);
-    static char b[1800];
+    static char b[2200];
     snprintf(b, sizeof b, "%d source formats x %s sizes x %s stride modes x alternating guard-page placement x %d transforms x %d filters x 4 repeats x 6 requests x %d ops x %d cfgs x %d destination formats; "
              "trapezoids %dx%d y x %d^3 x values x 3 depths x %d offsets; same-shape copies between padded views (6 formats x 4 sizes x 3 ops x 6 cfgs); glyphs 14x14 positions; create_bits 9x9 sizes x 6 formats; coordinate-range edges: 7 filters (NEAREST, FAST, BILINEAR, GOOD, BEST, convolution, separable) x 8 scales (1/256..2, negative) x "
-             "15 translations within 1.5 pixels of +-32768 x axis x/y/both x 4 repeats x 3 source formats x 2 sizes x 4 cfgs x SRC/OVER x source/mask role onto one-row destinations ending / starting at a guard page; full-word rows: a1/a4/a8/r5g6b5/r8g8b8 images whose rows fill their 32-bit words exactly x 3 widths x 2 heights as source / mask of an opaque / translucent solid x 6 destination formats x 4 ops x 3 sub-rectangles x 4 cfgs; tight-cover rotations: 6 turn/flip matrices x 6x6 translation fractions (0, e, 1/2-e, 1/2, 1/2+e, 1-e) x 4 formats x 4 sizes x nearest/bilinear x same-format and a8r8g8b8 destinations x NONE/PAD x SRC/OVER x 3 cfgs; alpha maps: 6 map sizes x 6 origins x 4 map formats on an 8x2 owner in the source / mask / destination role x 4 transforms x 4 repeats x 4 partner formats (narrow and wide pipeline) x 3 ops x 2 cfgs", NSF, th ? "5 of 6" : "3 of 6", th ? "3" : "2 of 3", NXF, th ? 6 : 4,
+             "15 translations within 1.5 pixels of +-32768 x axis x/y/both x 4 repeats x 3 source formats x 2 sizes x 4 cfgs x SRC/OVER x source/mask role onto one-row destinations ending / starting at a guard page; fills: fill_boxes / fill_rectangles x 4 formats x 5 destination clips (none, inside, larger than the image, sticking out, three rectangles around it) x 5 boxes (inside, overhanging, outside, huge) x 4 ops x 2 colours x 3 cfgs; full-word rows: a1/a4/a8/r5g6b5/r8g8b8 images whose rows fill their 32-bit words exactly x 3 widths x 2 heights as source / mask of an opaque / translucent solid x 6 destination formats x 4 ops x 3 sub-rectangles x 4 cfgs; tight-cover rotations: 6 turn/flip matrices x 6x6 translation fractions (0, e, 1/2-e, 1/2, 1/2+e, 1-e) x 4 formats x 4 sizes x nearest/bilinear x same-format and a8r8g8b8 destinations x NONE/PAD x SRC/OVER x 3 cfgs; alpha maps: 6 map sizes x 6 origins x 4 map formats on an 8x2 owner in the source / mask / destination role x 4 transforms x 4 repeats x 4 partner formats (narrow and wide pipeline) x 3 ops x 2 cfgs", NSF, th ? "5 of 6" : "3 of 6", th ? "3" : "2 of 3", NXF, th ? 6 : 4,
              th ? 3 : 2, th ? 6 : 4, th ? 2 : 1, th ? NTY : 9, th ? NTY : 9, th ? NTX : 7, th ? 5 : 2);
     vf_bounds = b;
     snprintf(vf->extra_json, sizeof vf->extra_json, "\"arithmetic_traps_observed\": %llu, \"arithmetic_traps_note\": \"SIGFPE (INT_MIN / -1 in pixman_edge_init for edges spanning the whole 16.16 y range) is a crash but not an out-of-bounds access; counted, not judged\"", (unsigned long long)*fpe_count);
